@@ -59,6 +59,20 @@ Fixpoint upd {A : Type} (l : list A) (i : nat) (x : A) : list A :=
 
 Definition is_last {A : Type} (r : list A) : bool := match r with [] => true | _ => false end.
 
+(* write_batch: msg->set_end_of_batch(itr == litr) for every message of a vector of two or more *)
+Fixpoint mark_eob (l : list msg) : list msg :=
+  match l with
+  | [] => []
+  | m :: r => set_eob (is_last r) m :: mark_eob r
+  end.
+(* the messages of a send_batch call as they reach send_process / the queue *)
+Definition batch_msgs (l : list msg) : list msg :=
+  match l with
+  | [] => []
+  | [m] => [m]
+  | _ => mark_eob l
+  end.
+
 Section Model.
 Variable sc : schema.
 Variable now : Z.                (* the clock is frozen while the threads run *)
@@ -72,7 +86,8 @@ Record tcfg := mkT {
   t_sess : sess;
   t_wire : list event;                 (* what reached the socket, in order *)
   t_threads : list tthread;
-  t_lin : list (nat * msg)             (* ghost: (thread, message) in the order of the critical sections *)
+  t_lin : list (nat * msg)             (* ghost: (thread, message as handed to send_process) in the order of the
+                                          critical sections *)
 }.
 
 Definition tinit (s : sess) (progs : list (list call)) : tcfg :=
@@ -84,10 +99,10 @@ Definition tstep (c : tcfg) (t : nat) : tcfg :=
     match cl with
     | CSend m custom noinc =>
       let '(ok, s', evs) := send sc now (t_sess c) m custom noinc in
-      mkT s' (t_wire c ++ evs) (upd (t_threads c) t (mkTT rest (rets ++ [if ok then 1 else 0]))) (t_lin c ++ [(t, m)])
+      mkT s' (t_wire c ++ evs) (upd (t_threads c) t (mkTT rest (rets ++ [if ok then 1 else 0]))) (t_lin c ++ [(t, prep_send m custom noinc)])
     | CBatch l =>
       let '(n, s', evs) := send_batch sc now (t_sess c) l in
-      mkT s' (t_wire c ++ evs) (upd (t_threads c) t (mkTT rest (rets ++ [n]))) (t_lin c ++ map (pair t) l)
+      mkT s' (t_wire c ++ evs) (upd (t_threads c) t (mkTT rest (rets ++ [n]))) (t_lin c ++ map (pair t) (batch_msgs l))
     end
   | _ => c                              (* no such thread, or it has finished *)
   end.
@@ -111,7 +126,7 @@ Record pcfg := mkP {
   p_threads : list pthread;
   p_queue : list msg;                  (* head = next to pop *)
   p_lock : option nat;                 (* holder of _con_spl *)
-  p_pushed : list (nat * msg);         (* ghost: (thread, message as submitted) in push order *)
+  p_pushed : list (nat * msg);         (* ghost: (thread, message as queued) in push order *)
   p_popped : list msg                  (* ghost: messages in pop order, as they were queued *)
 }.
 
@@ -120,8 +135,8 @@ Definition pinit (s : sess) (progs : list (list call)) : pcfg :=
 
 Definition with_thread (c : pcfg) (t : nat) (th : pthread) : pcfg :=
   mkP (p_sess c) (p_wire c) (upd (p_threads c) t th) (p_queue c) (p_lock c) (p_pushed c) (p_popped c).
-Definition push (c : pcfg) (t : nat) (orig queued : msg) : pcfg :=
-  mkP (p_sess c) (p_wire c) (p_threads c) (p_queue c ++ [queued]) (p_lock c) (p_pushed c ++ [(t, orig)]) (p_popped c).
+Definition push (c : pcfg) (t : nat) (queued : msg) : pcfg :=
+  mkP (p_sess c) (p_wire c) (p_threads c) (p_queue c ++ [queued]) (p_lock c) (p_pushed c ++ [(t, queued)]) (p_popped c).
 Definition with_lock (c : pcfg) (l : option nat) : pcfg :=
   mkP (p_sess c) (p_wire c) (p_threads c) (p_queue c) l (p_pushed c) (p_popped c).
 
@@ -135,14 +150,14 @@ Definition app_step (c : pcfg) (t : nat) : pcfg :=
       with_lock (with_thread c t (mkPT prog PIdle (rets ++ [cnt]))) None
     | PLocked (m :: r) cnt =>
       (* msg->set_end_of_batch(itr == litr); _msg_queue.try_push(msg); ++result *)
-      with_thread (push c t m (set_eob (is_last r) m)) t (mkPT prog (PLocked r (cnt + 1)) rets)
+      with_thread (push c t (set_eob (is_last r) m)) t (mkPT prog (PLocked r (cnt + 1)) rets)
     | PIdle =>
       match prog with
       | [] => c
       | CSend m custom noinc :: rest =>
-        with_thread (push c t m (prep_send m custom noinc)) t (mkPT rest PIdle (rets ++ [1]))
+        with_thread (push c t (prep_send m custom noinc)) t (mkPT rest PIdle (rets ++ [1]))
       | CBatch [] :: rest => with_thread c t (mkPT rest PIdle (rets ++ [0]))
-      | CBatch [m] :: rest => with_thread (push c t m m) t (mkPT rest PIdle (rets ++ [1]))
+      | CBatch [m] :: rest => with_thread (push c t m) t (mkPT rest PIdle (rets ++ [1]))
       | CBatch l :: rest =>
         match p_lock c with
         | None => with_lock (with_thread c t (mkPT rest (PLocked l 0) rets)) (Some t)
